@@ -250,7 +250,7 @@ func checkC10(p *load.Program, r *kit.Report) {
 								return false
 							}
 							for _, e := range sliceLiteralElems(c.Call.Args[1]) {
-								if ex, ok := kit.Strip(e).(*ssa.Extract); ok && ex.Index == 0 && ex.Tuple == conn[0].Value() {
+								if ex, ok := kit.Provenance(e).(*ssa.Extract); ok && ex.Index == 0 && ex.Tuple == conn[0].Value() {
 									return true
 								}
 							}
@@ -360,10 +360,29 @@ func checkC10(p *load.Program, r *kit.Report) {
 					plh = lin.Of(c.(*ssa.Call))
 				}
 			}
+			if !plh.OK {
+				// no call of the getter (its body written out): PrunedLowestHeight() is parentHeight + offset
+				phF, offF := p.Field(H, "Branch", "parentHeight"), p.Field(H, "Branch", "offset")
+				if phF != nil && offF != nil {
+					recv := recvPtr(pc.Call.Args[0])
+					plh = lin.FieldAt(recv, phF, pc).Add(lin.FieldAt(recv, offF, pc))
+				}
+			}
 			ph := arg.Add(plh)
 			gs := kit.FindGuards(f, func(c ssa.Value) (bool, bool) { return cmpMatches(lin, c, ph.Sub(plh), 1) })
+			ownTerm := ""
+			if ph.OK {
+				pre := "f:" + lin.Key(recvPtr(pc.Call.Args[0])) + "."
+				for a, c := range ph.T {
+					if c != 0 && strings.HasPrefix(a, pre) {
+						ownTerm = a
+					}
+				}
+			}
 			if !arg.OK || !plh.OK {
 				bad = "Prune count not normalisable"
+			} else if ownTerm != "" {
+				bad = "Prune(" + arg.String() + ") is not pruneHeight − PrunedLowestHeight() (= parentHeight + offset): count + lowest height = " + ph.String() + " still depends on the branch's own " + ownTerm + ", so a branch that was pruned before loses the wrong number of headers"
 			} else if ok, _ := kit.DominatedByEdges(f, pc, edgesOf(gs, true), nil, p.Pos); !ok {
 				bad = "Prune(" + arg.String() + ") is not behind PrunedLowestHeight() < pruneHeight"
 			}
